@@ -62,11 +62,22 @@ def native_partition(run):
         break
 
 
+def _more_bounded(run, tier, seed):
+    import importlib
+    try:
+        m = importlib.import_module('checks.C35_bounded')
+    except ModuleNotFoundError:
+        return
+    m.bounded(run, tier, seed)
+
+
 def run(run, tier, seed, args):
     run_proofs(run, KEYS, tier, update_baseline=args.update_baseline, source_root=args.source_root)
     partition_lemma(run)
     if not args.source_root:
         native_partition(run)
+    if not args.source_root:
+        _more_bounded(run, tier, seed)
     run.assumptions += [
         "`_attached` is read as a boolean attribute (it is a property over session_id and the global _sessions registry)",
         "outside this check: transitions and events (Session.add/delete/flush/commit/rollback/expunge/...) — see DESIGN §5 C35; only the state partition is proved",
